@@ -42,9 +42,42 @@ COMPONENTS = {
 
 
 def gen(rng, tier):
-    if rng.random() < 0.12:
+    r = rng.random()
+    if r < 0.12:
         return gen_timeout_race(rng, tier)
+    if r < 0.22:
+        return gen_pingpong(rng, tier)
     return gen_profile(rng, tier)
+
+
+def gen_pingpong(rng, tier):
+    """Request/response: each side sends its next item only after it has received the other's previous one, so
+    an item that is accepted by send() but not put on the wire (a tail left in a write buffer) stops everything."""
+    backend = rng.choice(["thread", "gevent", "gevent", "main_thread_only"])
+    transport = rng.choice(["popen", "popen", "proxy", "socket"])
+    specs, gwi = L.gateways_for(transport, backend)
+    label = "c0"
+    rounds = rng.randrange(1, 5)
+    iops, wops = [], []
+    for k in range(rounds):
+        big_req = rng.random() < 0.3
+        req = ["bytes", rng.choice([9000, 66000, 67536, 133072, 200000])] if big_req else L.gen_fill(rng)
+        rep = ["bytes", rng.choice([9000, 66000, 67536, 70000, 133072, 200000])] if rng.random() < 0.7 else L.gen_fill(rng)
+        iops.append(["send", label, f"{label}:i2w:2:{k}", req])
+        wops.append(["recv", label])
+        wops.append(["send", label, f"{label}:w2i:1:{k}", rep])
+        iops.append(["recv", label])
+    wops.append(["recv", label])  # keeps the body (and with it the channel) open: nothing flushes behind the last reply
+    iops.append(["close", label])
+    actors = [{"side": "i", "gw": gwi, "chan": None,
+               "ops": [["exec", label, 1, gwi], ["spawn", 2], ["join", 2, 900], ["terminate", 10.0]]},
+              {"side": "w", "gw": gwi, "chan": label, "ops": wops},
+              {"side": "i", "gw": gwi, "chan": label, "ops": iops}]
+    return {"gateways": specs, "actors": actors,
+            "knobs": {"pipe_cap": rng.choice([4096, 65536, 65536]), "sock_cap": rng.choice([4096, 65536]),
+                      "chunk": rng.choice(["greedy", "random"])},
+            "strategy": L.gen_strategy(rng), "preempt": [], "preempt_at": [], "faults": [], "transport": transport,
+            "backend": backend, "gwi": gwi}
 
 
 def gen_timeout_race(rng, tier):
